@@ -18,6 +18,7 @@ from twosigma.memento.storage_null import NullStorageBackend
 
 sys.path.insert(0, os.path.dirname(os.path.abspath(__file__)))
 import progs  # noqa: E402
+import verif_sched  # noqa: E402
 import verif_side  # noqa: E402
 
 CTXV = {"none": None, "k1": {"k": 1}, "k2": {"k": 2}}
@@ -166,6 +167,27 @@ def run_job(job):
                         return ["L", [conv(x) for x in r]]
                 out, exc = outcome(thunk)
                 ev["out"], ev["exc"] = out, exc
+            elif name == "Par":
+                import random as _random
+                verif_sched.coop_locks_in(storage)
+                outs = [None] * len(op["calls"])
+                excs = [""] * len(op["calls"])
+
+                def mk(i, f, a, c):
+                    def run_one():
+                        fn = with_ctx(mod.FNS[f], c)
+                        o, x = outcome(lambda: fn(a))
+                        outs[i], excs[i] = conv(o), x
+                    return run_one
+                pol = verif_sched.policy_random(_random.Random(op["sched"]["random"]), op["sched"].get("p", 0.05))
+                ctrl = verif_sched.Controller([mk(i, *cl) for i, cl in enumerate(op["calls"])], pol, max_steps=200000)
+                ctrl.run()
+                ev["outs"] = outs
+                ev["exc"] = "; ".join(x for x in excs if x) + ("deadlock" if ctrl.deadlock else "")
+                for t in ctrl.threads:
+                    if t.exc is not None:
+                        ev["exc"] += " thread: %s: %s" % (type(t.exc).__name__, str(t.exc)[:100])
+                ev.pop("sched", None)
             elif name == "Forget":
                 try:
                     with_ctx(mod.FNS[op["f"]], op["c"]).forget(op["a"])
@@ -192,6 +214,7 @@ def run_job(job):
 def main():
     with open(sys.argv[1]) as f:
         doc = json.load(f)
+    verif_sched.install_coop_locks()      # locks memento creates from now on cooperate with the thread scheduler
     out = {"traces": [run_job(j) for j in doc["jobs"]]}
     with open(sys.argv[2], "w") as f:
         json.dump(out, f)
